@@ -187,6 +187,15 @@ def base_scenario(rng, index):
     # where the system keeps temporary files: sometimes the very directory
     # the destination lives in
     sc['tmpdir'] = rng.choice([None, None, None, 'out', 'in', 'out'])
+    # the destination may be a symbolic link to a cart kept elsewhere
+    sc['dest_symlink'] = prior == 'cart' and route not in (
+        'lib-overwrite', 'luafmt-overwrite') and rng.random() < 0.25
+    # file arguments spelled relative to a working directory
+    sc['argstyle'] = rng.choice(['abs', 'abs', 'rel'])
+    sc['cwd'] = rng.choice(['root', 'in', 'out'])
+    # something happened earlier in this process
+    sc['prelude'] = rng.choice([None, None, None, 'ok-write', 'failed-write',
+                                'failed-load'])
     sc['global_flags'] = rng.choice([[], [], ['-q'], ['--debug']])
     if route.startswith('build'):
         sc['build'] = {
@@ -325,6 +334,31 @@ def _mutate_game(g, how):
         raise core.HarnessError(how)
 
 
+def _prelude(w, sc):
+    """Something that happened earlier in the same process (outside the
+    fault window): a successful write of another cart, a write that failed,
+    or a load that failed."""
+    from pico8.game import file as pfile
+    how = sc.get('prelude')
+    if not how:
+        return
+    other = refcodec.cart_from_spec(sc['prior_cart'])
+    w.put('pre/other.p8', refcodec.encode_p8(other))
+    try:
+        if how == 'ok-write':
+            pfile.to_file(pfile.from_file(w.p('pre/other.p8')),
+                          w.p('pre/written.p8.png'))
+        elif how == 'failed-write':
+            g = pfile.from_file(w.p('pre/other.p8'))
+            g.sfx = None
+            pfile.to_file(g, w.p('pre/failed.p8'))
+        elif how == 'failed-load':
+            w.put('pre/broken.p8', b'not a cart\n')
+            pfile.from_file(w.p('pre/broken.p8'))
+    except BaseException:
+        pass
+
+
 def _setup(w, sc):
     """Populate the store; returns (dest_rel, op callable)."""
     from pico8.game import file as pfile
@@ -353,8 +387,26 @@ def _setup(w, sc):
     if route not in ('lib-overwrite', 'luafmt-overwrite'):
         pb = _prior_bytes(sc, dest_rel)
         if pb is not None:
-            w.put(dest_rel, pb)
-    dest = w.p(dest_rel)
+            if sc.get('dest_symlink'):
+                real = 'in/linked_target' + os.path.splitext(dest_rel)[1] \
+                    if not dest_rel.endswith('.p8.png') else \
+                    'in/linked_target.p8.png'
+                w.put(real, pb)
+                os.makedirs(os.path.dirname(w.p(dest_rel)), exist_ok=True)
+                os.symlink(os.path.relpath(w.p(real), os.path.dirname(
+                    w.p(dest_rel))), w.p(dest_rel))
+            else:
+                w.put(dest_rel, pb)
+    cwd_rel = {'root': '', 'in': 'in', 'out': 'out'}[sc.get('cwd', 'root')]
+    os.chdir(w.p(cwd_rel))
+
+    def A(path):
+        """Spell a file argument the way the scenario says."""
+        if sc.get('argstyle', 'abs') == 'abs':
+            return path
+        return os.path.relpath(path, w.p(cwd_rel))
+    dest = A(w.p(dest_rel))
+    _prelude(w, sc)
 
     if route in LIB_ROUTES:
         g = pfile.from_file(w.p(src_rel))
@@ -429,11 +481,11 @@ def _setup(w, sc):
         if fk == 'ARG-BAD' and how == 'indentwidth-str' and \
                 route.startswith('luafmt'):
             argv += ['--indentwidth', 'wide']
-        argv.append(w.p(src_rel))
+        argv.append(A(w.p(src_rel)))
         if route.endswith('-2files'):
             second = refcodec.cart_from_spec(sc['prior_cart'])
             w.put('in/src2.p8.png', refcodec.encode_p8png(second))
-            argv.append(w.p('in/src2.p8.png'))
+            argv.append(A(w.p('in/src2.p8.png')))
             pb = _prior_bytes(sc, 'in/src2_fmt.p8.png')
             if pb is not None and sc['prior'] != 'garbage':
                 w.put('in/src2_fmt.p8.png', pb)
@@ -444,7 +496,7 @@ def _setup(w, sc):
         other = refcodec.cart_from_spec(sc['prior_cart'])
         w.put('in/other.p8', refcodec.encode_p8(other))
         if b.get('lua') == 'cart':
-            argv += ['--lua', w.p(src_rel)]
+            argv += ['--lua', A(w.p(src_rel))]
         elif b.get('lua') == 'luafile':
             code = cart['code']
             if fk == 'ARG-BAD' and how == 'require-missing':
@@ -452,13 +504,13 @@ def _setup(w, sc):
             if fk == 'ARG-BAD' and how == 'lua-syntax-error':
                 code = b'x = = 1\n'
             w.put('in/main.lua', code)
-            argv += ['--lua', w.p('in/main.lua')]
+            argv += ['--lua', A(w.p('in/main.lua'))]
         if b.get('gfx') == 'cart':
-            argv += ['--gfx', w.p('in/other.p8')]
+            argv += ['--gfx', A(w.p('in/other.p8'))]
         elif b.get('gfx') == 'empty':
             argv += ['--empty-gfx']
         if b.get('sfx') == 'cart':
-            argv += ['--sfx', w.p(src_rel)]
+            argv += ['--sfx', A(w.p(src_rel))]
         elif b.get('sfx') == 'empty':
             argv += ['--empty-sfx']
         if route == 'build-minify':
